@@ -58,6 +58,19 @@ pub fn centroid_case(cx: &mut Ctx, n: u64, case: &Value) {
         Ok(()) => cx.ok("centroid_concrete"),
         Err(e) => cx.bad("C06", "centroid_concrete", case, json!({"what": "concrete centroid", "detail": e})),
     }
+    // the same point set written another way (rings turned / reversed, triangles stored clockwise, rectangles from the opposite
+    // corners, collection members respelled or in reverse order, one-member wrappers): the same centre of mass
+    for (name, v) in g.variants() {
+        if name == "mpdup" || name == "mid" || name == "midrot" || name == "quarterrot" {
+            // a repeated point weighs twice, and inserted vertices do not change a length- or area-weighted mean but do change
+            // nothing else: keep the latter, drop the former
+            if name == "mpdup" { continue; }
+        }
+        match judge(guard(|| v.geometry().centroid()), want, 1e-9 * 8.0) {
+            Ok(()) => cx.ok("centroid_variant"),
+            Err(e) => cx.bad("C06", "centroid_variant", case, json!({"what": format!("variant {name}"), "detail": e})),
+        }
+    }
     // equivariance under exact similarity maps (translation, uniform power-of-two scaling, D4)
     let maps: Vec<_> = exact_maps().into_iter().filter(|m| m.similarity().is_some()).collect();
     for k in 0..3usize {
